@@ -237,6 +237,19 @@ def main(a):
         mon = run_monitor(prop, pl["monitor"], a.tier, a.seed, src, a.jobs)
         if mon.get("error"):
             errors.append("monitor %s: %s" % (pl["monitor"], mon["error"]))
+        # families of other properties whose cases also bear on this one (their violations of THIS property only)
+        for mod2, fam2 in pl.get("extra_monitors", []):
+            m2 = run_monitor(fam2, mod2, a.tier, a.seed, src, a.jobs, want=prop)
+            if m2.get("error"):
+                errors.append("monitor %s[%s]: %s" % (mod2, fam2, m2["error"]))
+            mon["evaluations"] += m2["evaluations"]
+            mon["distinct_nontrivial"] += m2["distinct_nontrivial"]
+            mon["violations"] = list(mon.get("violations", [])) + list(m2.get("violations", []))
+            mon["violations_n"] = len(mon["violations"])
+            mon["rule"] = mon["rule"] + " || also " + m2["name"] + ": " + m2["rule"]
+            mon["name"] = mon["name"] + "+" + m2["name"]
+            mon["summary"] = "%s: %d cases, %d distinct non-trivial, %d violations" % (mon["name"], mon["evaluations"], mon["distinct_nontrivial"], mon["violations_n"])
+            mon["samples"] = (mon.get("samples") or [])[:6] + (m2.get("samples") or [])[:2]
         for v in mon.get("violations", []):
             f = next((f for f in kf if f.get("status") == "open" and f.get("property") == prop and f.get("monitor_key") and f["monitor_key"] == v.get("key")), None)
             rec = dict(v, id="monitor::" + v.get("key", "?"), monitor=True, witness={"monitor": v.get("monitor"), "fn": v.get("fn"), "input": v.get("input")})
